@@ -54,45 +54,60 @@ Record macro := mkMacro {
 Definition which_arg (isfun : bool) (args : list string) (s : string) : option nat :=
   if isfun then index_of s args 0 else None.
 
-(* Macro.preproc_replacement; [rest] = replacement[idx:], [res] = res_tokens *)
+(* Macro.preproc_replacement, first loop; [rest] = replacement[idx:], [acc] = res_tokens *)
 Fixpoint preproc (fuel : nat) (isfun : bool) (args : list string) (rest acc : list tok)
-         (cat : bool) (need : list bool) : res (list tok * bool * list bool) :=
+         (cat : bool) : res (list tok * bool) :=
   match fuel with
   | O => Err "OutOfFuel"
   | S f =>
     match rest with
-    | [] => Ok (acc, cat, need)
+    | [] => Ok (acc, cat)
     | t :: rest1 =>
       if is_txt "##" t then
         match pop_last acc with
         | None => Err "IndexError"
         | Some (res0, last) =>
           match which_arg isfun args (tt last) with
-          | Some _ => preproc f isfun args rest1 (res0 ++ [last; t]) true need
+          | Some _ => preproc f isfun args rest1 (res0 ++ [last; t]) true
           | None =>
             match rest1 with
             | [] => Err "IndexError"
             | nt :: rest2 =>
               match which_arg isfun args (tt nt) with
-              | Some _ => preproc f isfun args rest2 (res0 ++ [last; t; nt]) true need
+              | Some _ => preproc f isfun args rest2 (res0 ++ [last; t; nt]) true
               | None =>
                 match lex_one (tt last ++ tt nt)%string with
                 | None => Err "ParseError"
-                | Some (k, s) => preproc f isfun args rest2 (res0 ++ [mkTok k (tw last) s true]) cat need
+                | Some (k, s) => preproc f isfun args rest2 (res0 ++ [mkTok k (tw last) s true]) cat
                 end
               end
             end
           end
         end
       else if is_txt "#" t then
-        preproc f isfun args rest1 (acc ++ [t]) (if isfun then true else cat) need
-      else if is_id t then
-        match which_arg isfun args (tt t) with
-        | Some i => preproc f isfun args rest1 (acc ++ [t]) cat (set_nth i true need)
-        | None => preproc f isfun args rest1 (acc ++ [t]) cat need
-        end
-      else preproc f isfun args rest1 (acc ++ [t]) cat need
+        preproc f isfun args rest1 (acc ++ [t]) (if isfun then true else cat)
+      else preproc f isfun args rest1 (acc ++ [t]) cat
     end
+  end.
+
+(* second loop: arg_needs_expansion[i] iff parameter i occurs where it is not an operand of # / ## *)
+Definition is_hash_or_cat (t : tok) : bool := is_txt "#" t || is_txt "##" t.
+Fixpoint needs_scan (isfun : bool) (args : list string) (prev : option tok) (l : list tok) (need : list bool)
+  : list bool :=
+  match l with
+  | [] => need
+  | t :: r =>
+      let need' :=
+        if is_id t then
+          match which_arg isfun args (tt t) with
+          | Some i =>
+              if match prev with Some p => is_hash_or_cat p | None => false end then need
+              else if match r with n :: _ => is_txt "##" n | [] => false end then need
+              else set_nth i true need
+          | None => need
+          end
+        else need in
+      needs_scan isfun args (Some t) r need'
   end.
 
 Definition last_tok (l : list tok) : option tok := match rev l with [] => None | x :: _ => Some x end.
@@ -106,9 +121,10 @@ Definition macro_init (name : string) (isfun : bool) (args : list string) (varia
       if is_txt "##" t0 then Err "RuntimeError"
       else match last_tok repl with
            | Some tl => if is_txt "##" tl then Err "RuntimeError" else
-               match preproc (S (List.length repl)) isfun args (set_w false t0 :: r0) [] false
-                             (map (fun _ => false) args) with
-               | Ok (r, cat, need) => Ok (mkMacro name isfun args variadic cat need r)
+               match preproc (S (List.length repl)) isfun args (set_w false t0 :: r0) [] false with
+               | Ok (r, cat) =>
+                   Ok (mkMacro name isfun args variadic cat
+                               (needs_scan isfun args None r (map (fun _ => false) args)) r)
                | Err e => Err e
                end
            | None => Err "IndexError"
@@ -295,7 +311,7 @@ End Stringify.
 (* MacroFunction.replace                                               *)
 (* ------------------------------------------------------------------ *)
 Definition iarg := (list tok * option (list tok))%type.   (* (raw, pre-expanded or absent) *)
-Definition comma_tok : tok := mkTok KPunct false Gen.C03_tables.variadic_separator true.
+Definition comma_tok : tok := mkTok KPunct false "," true.
 
 Definition exp_of (a : iarg) : res (list tok) :=
   match snd a with Some e => Ok e | None => Err "IndexError" end.
@@ -315,7 +331,8 @@ Fixpoint va_join (l : list iarg) : res (list tok * list tok) :=
       end
   end.
 
-Definition merge_variadic (m : macro) (ia : list iarg) : res (list iarg) :=
+(* the re-joining of a split variable argument, as it was before the repairs *)
+Definition merge_variadic_orig (m : macro) (ia : list iarg) : res (list iarg) :=
   if m_variadic m then
     let n1 := Nat.pred (List.length (m_args m)) in
     match va_join (skipn n1 ia) with
@@ -323,12 +340,16 @@ Definition merge_variadic (m : macro) (ia : list iarg) : res (list iarg) :=
     | Err e => Err e
     end
   else Ok ia.
+(* now: the variable argument arrives as one argument and may be omitted *)
+Definition merge_variadic_new (m : macro) (ia : list iarg) : list iarg :=
+  if m_variadic m && Nat.ltb (List.length ia) (List.length (m_args m)) then ia ++ [([], Some [])] else ia.
 
 Section Replace.
 Variable lead : bool.      (* see Stringify *)
 Variable cat_fix : bool.   (* true: the repaired `##` with an empty operand; false: the original code *)
 Variable str_white : bool. (* true: the string made by # has the prev_white of the # token (repaired) *)
 Variable resub_fix : bool. (* true: results of # / ## are not searched for parameter names again (repaired) *)
+Variable va_fix : bool.    (* true: no re-joining of the variable argument (repaired); false: the original *)
 
 Definition raw_or_self (m : macro) (ia : list iarg) (t : tok) : res (list tok) :=
   match index_of (tt t) (m_args m) 0 with
@@ -435,7 +456,7 @@ Fixpoint substitute (m : macro) (ia : list iarg) (l : list (tok * bool)) : res (
   end.
 
 Definition replace_fun (m : macro) (ia : list iarg) : res (list tok) :=
-  match merge_variadic m ia with
+  match (if va_fix then Ok (merge_variadic_new m ia) else merge_variadic_orig m ia) with
   | Err e => Err e
   | Ok ia' =>
       match (if m_strcat m then cat_loop (S (List.length (m_repl m))) m ia' (m_repl m) []
@@ -465,8 +486,7 @@ Variable base_name : option string.   (* what expand() puts into no_expand for i
                                          Some "None" = the original `str(ident)`, None = repaired *)
 Variable rescan : bool.               (* true = the original splice: pos goes back to the START of the
                                          inserted tokens, which are then scanned a second time *)
-Variable va_fix : bool.               (* true = arguments merged into the variable argument are always
-                                         pre-expanded (repaired); false = the original condition *)
+Variable va_fix : bool.               (* see Replace *)
 Variable va_whole : bool.             (* true = the variable argument is collected as ONE argument that keeps
                                          its commas (repaired); false = split at every top-level comma *)
 Variable max_level : nat.
@@ -729,8 +749,7 @@ Fixpoint run (fuel : nat) (s : xst) : res xst :=
                           match al with
                           | [] => Ok ([], st)
                           | a :: ar =>
-                              if match nth_error (m_need m) i with Some b => b | None => true end
-                                 || (va_fix && m_variadic m && Nat.leb (Nat.pred (List.length (m_args m))) i) then
+                              if match nth_error (m_need m) i with Some b => b | None => true end then
                                 match call a st with
                                 | Err e => Err e
                                 | Ok (ex, st1) =>
@@ -748,7 +767,7 @@ Fixpoint run (fuel : nat) (s : xst) : res xst :=
                         match pre 0 args s4 with
                         | Err e => Err e
                         | Ok (ias, s5) =>
-                          match replace_fun lead cat_fix str_white resub_fix m ias with
+                          match replace_fun lead cat_fix str_white resub_fix va_fix m ias with
                           | Err e => Err e
                           | Ok repl => continue (push (set_w_hd (tw ctok) repl) (Some (m_name m)) s5)
                           end
